@@ -33,7 +33,33 @@ exception; everywhere else the call may raise or stay silent but must not
 send (key .../<method>(freed)/unexpected-message); a freed object in a value
 slot may travel as nil 0; Bus.as_map() of a live bus returns 'c'|'a' + its
 index; the id ledger resolves the symbols on the wire too.
+
+Nested bind() blocks (round 8; the class the workload did not reach: every
+block of every history was opened while no other block was open, so "not at
+all if the block raises" was only ever decided for an outermost block whose
+exception leaves it for good).  Shards nest / rtnest run bind() blocks inside
+bind() blocks (vf/c17_gen.py:gen_nested_case): depth 2-3, on the same server
+and alternating between two servers, harness exceptions at an arbitrary point
+of any block, caught directly around any block of the chain (so an inner block
+fails and the outer one goes on, or fails later, or the exception passes
+through several levels), commands for a server that has no open block issued
+inside the other server's block, blocks entered from the main thread and (RT)
+from routines with `yield from server.sync()` (with / without elements) and
+waits at every level.  Oracle (vf/c17_exec.py:NestedJudge, a stack of pending
+command lists per server): the wire carries exactly the commands of the
+blocks that exited normally and of nothing that raised, in issue order, one
+bundle per outermost block and per sync point; keys C17/bind-nested/...
+
+Entry points no history entered (round 8, coverage survey; shard rtentry,
+vf/c17_entry.py): Buffer.new_send_list / send_list(wait=-1) / new_load_list /
+load_list / load_to_list / get_to_list with the server's replies fed back,
+Node.register / unregister / on_free (silent), query_tree / dump_tree of
+groups, the server and RootNode, RootNode's refusals, Server.free_nodes,
+free_default_group(all_users), unregister / register / quit against a
+stand-in server.  Not reached: Server.boot / reboot / quit of a real process.
 """
+
+import os
 
 from vf.common import iter_cases, case_rng, h64, split, short_tb
 
@@ -47,7 +73,13 @@ RULE = ("seeded random histories (3-90 operations) over a pool of synths, "
         "0-8 operation bind() blocks of "
         "which 40 % raise at a random point.  Non-trivial = the history creates "
         "and frees objects and contains a bind block, a consecutive group, "
-        "free_all, a double free or a use after free; distinct = hash of the program")
+        "free_all, a double free or a use after free; distinct = hash of the program.  "
+        "Nested cases: a tree of bind() blocks (depth 1-3, one or two servers, main "
+        "thread or routine, 0-5 items per block: operations, blocks, sync points, "
+        "waits), every block raises with p 0.2-0.45 at a random point and is caught "
+        "directly or further out; non-trivial = depth >= 2 and >= 2 operations.  "
+        "Entry point cases: one call of a method no history reaches with random "
+        "sizes / flags, replies of the stand-in server fed back")
 ASSUMPTIONS = [
     "vf/cmdref.py and vf/model_cmds.py transcribe the Server Command Reference "
     "and the SuperCollider class documentation correctly",
@@ -70,6 +102,19 @@ ASSUMPTIONS = [
     "observed_freed_object_in_value_slot_sent_as_nil_0, never a violation; a freed "
     "Node object keeps its id (same commands expected); sub-buses of a freed "
     "parent and buffers freed by Buffer.free_all (objects not told) are not used",
+    "nested blocks: the statement's 'block' is read dynamically - a command issued "
+    "while several blocks of its server are open belongs to the innermost one and "
+    "reaches the wire iff every one of them exits normally (or a sync point of "
+    "Server.sync, documented in Server.bind, flushed it before); commands for a "
+    "server without an open block are sent at once; an empty bundle for a block "
+    "without commands is tolerated",
+    "entry point shard: the stand-in answers /status, /notify, /sync, /quit, /b_getn, "
+    "/b_query (b_info), /g_queryTree and writes the file /b_write asks for the way "
+    "scsynth + libsndfile do; a reply that does not resume the client within the "
+    "bound is a timeout (no verdict; > 5 % of the cases: INCONCLUSIVE).  "
+    "OBSERVATIONS outside the property (counted): the RIFF size field of the data "
+    "file written by load_list / new_load_list (proposed_fixes/"
+    "C17-wave-header-riff-size.md); RootNode.run(flag) etc. refuse by TypeError",
 ]
 MIN_COUNTERS = {
     'quick': {'ops_compared': 50_000, 'messages_grammar_checked': 40_000,
@@ -90,6 +135,18 @@ MIN_COUNTERS = {
               'map_symbol_mentions_checked': 1500,
               'freed_object_in_value_slot_checked': 300,
               'ops_on_freed_nodes_checked': 800,
+              'nested_cases_checked': 3000,
+              'nested_bundles_sent_after_dropping_a_failed_inner_block': 150,
+              'nested_failed_inner_blocks_with_commands_in_open_outer_block': 400,
+              'nested_sync_points_inside_inner_blocks': 300,
+              'nested_cases_two_servers': 800,
+              'nested_blocks_at_same_server_depth_3': 200,
+              'nested_cases:routine': 500, 'nested_cases:main': 1500,
+              'nested_direct_sends_to_a_server_without_open_block': 400,
+              'entry_cases_checked': 350, 'entry_lifecycle:quit': 1,
+              'entry_lifecycle:unregister': 1, 'entry_rootnode_refusals_checked': 60,
+              'entry_data_files_parsed': 40, 'entry_stream_chunks_compared': 60,
+              'entry_silent_calls_checked': 60, 'entry_sync_points_observed': 100,
               'oracle_selftests': 1},
     'thorough': {'ops_compared': 1_500_000, 'messages_grammar_checked': 1_500_000,
                  'id_mentions_checked': 1_500_000, 'ledger_checks': 1_500_000,
@@ -109,6 +166,18 @@ MIN_COUNTERS = {
                  'map_symbol_mentions_checked': 50_000,
                  'freed_object_in_value_slot_checked': 8000,
                  'ops_on_freed_nodes_checked': 20_000,
+                 'nested_cases_checked': 40_000,
+                 'nested_bundles_sent_after_dropping_a_failed_inner_block': 3000,
+                 'nested_failed_inner_blocks_with_commands_in_open_outer_block': 8000,
+                 'nested_sync_points_inside_inner_blocks': 5000,
+                 'nested_cases_two_servers': 15_000,
+                 'nested_blocks_at_same_server_depth_3': 4000,
+                 'nested_cases:routine': 8000, 'nested_cases:main': 20_000,
+                 'nested_direct_sends_to_a_server_without_open_block': 8000,
+                 'entry_cases_checked': 3000, 'entry_lifecycle:quit': 3,
+                 'entry_lifecycle:unregister': 3, 'entry_rootnode_refusals_checked': 600,
+                 'entry_data_files_parsed': 400, 'entry_stream_chunks_compared': 600,
+                 'entry_silent_calls_checked': 600, 'entry_sync_points_observed': 1200,
                  'oracle_selftests': 1},
 }
 
@@ -147,20 +216,42 @@ def plan(tier, seed):
     n = 60 if quick else 1500
     for p, (f, k) in enumerate(split(n, 2 if quick else 3)):
         shards.append({'name': f'rtalive{p}', 'mode': 'rt', 'kind': 'rtalive',
-                       'first_case': f, 'n': k, 'secs': min(secs, 32 if quick else secs),
+                       'first_case': f, 'n': k, 'secs': min(secs, 32 if quick else 420),
                        'hard_timeout': secs + 120})
     # streaming routines overlapping bind() blocks (~0.3 s each)
     n = 160 if quick else 6000
     for p, (f, k) in enumerate(split(n, 2 if quick else 3)):
         shards.append({'name': f'rtstream{p}', 'mode': 'rt', 'kind': 'rtstream',
-                       'first_case': f, 'n': k, 'secs': min(secs, 32 if quick else secs),
+                       'first_case': f, 'n': k, 'secs': min(secs, 32 if quick else 420),
                        'hard_timeout': secs + 120})
     # blocks larger than one datagram
     n = 60 if quick else 3000
     for p, (f, k) in enumerate(split(n, 2 if quick else 3)):
         shards.append({'name': f'rtbig{p}', 'mode': 'rt', 'kind': 'rtbig',
-                       'first_case': f, 'n': k, 'secs': min(secs, 32 if quick else secs),
+                       'first_case': f, 'n': k, 'secs': min(secs, 32 if quick else 420),
                        'hard_timeout': secs + 120})
+    # nested bind() blocks: NRT (main thread) and RT (main thread / routines with sync)
+    n = 2000 if quick else 60_000
+    for p, (f, k) in enumerate(split(n, 1 if quick else 3)):
+        shards.append({'name': f'nest{p}', 'mode': 'nrt', 'kind': 'nest',
+                       'first_case': f, 'n': k, 'secs': secs,
+                       'hard_timeout': secs + 120})
+    n = 2000 if quick else 60_000
+    for p, (f, k) in enumerate(split(n, 2 if quick else 3)):
+        shards.append({'name': f'rtnest{p}', 'mode': 'rt', 'kind': 'rtnest',
+                       'first_case': f, 'n': k, 'secs': secs,
+                       'hard_timeout': secs + 120})
+    # entry points no history enters (stand-in server, registered): one shard
+    shards.append({'name': 'rtentry0', 'mode': 'rt', 'kind': 'rtentry',
+                   'first_case': 0, 'n': 600 if quick else 20_000,
+                   'secs': min(secs, 30 if quick else 300),
+                   'hard_timeout': secs + 120})
+    # the shards that are paced by wall-clock waits start first (16 workers)
+    first = {'rtalive': 0, 'rtstream': 0, 'rtbig': 0, 'rtentry': 1}
+    shards.sort(key=lambda s: first.get(s['kind'], 2))
+    only = os.environ.get('VF_C17_ONLY')        # development aid: shard kinds to run
+    if only:
+        shards = [s for s in shards if s['kind'] in only.split(',')]
     return shards
 
 
@@ -185,7 +276,13 @@ def run_shard(spec, acc):
 
     kind = spec['shard']['kind']
     mode = 'rt' if kind in ('rt', 'rtsync', 'rtalive', 'rtbig', 'rtstream',
-                            'rtmulti') else 'nrt'
+                            'rtmulti', 'rtnest', 'rtentry') else 'nrt'
+    if kind == 'rtentry':
+        run_entry_shard(spec, acc, m, main)
+        return
+    if kind in ('nest', 'rtnest'):
+        run_nested_shard(spec, acc, m, main, mode)
+        return
     multi = kind in ('multi', 'rtmulti')
     if multi:
         server = Server('vf17', NetAddr('127.0.0.1', 57917), ServerOptions())
@@ -432,3 +529,155 @@ def run_stream_shard(spec, acc, m, main, server, cap):
             acc.sample({'case': i, 'kind': 'rtstream', 'stream': case})
     if cases and timeouts > max(3, cases // 20):
         acc.mark_inconclusive(f'{timeouts}/{cases} streams never finished')
+
+
+def run_nested_shard(spec, acc, m, main, mode):
+    """bind() blocks nested in bind() blocks on one or two servers
+    (vf/c17_gen.py:gen_nested_case, vf/c17_exec.py:NestedCase / NestedJudge)."""
+    from vf import osc, c17_gen, c17_exec
+    from sc3.base import clock as clk
+    from sc3.base.stream import Routine
+    from sc3.base.netaddr import NetAddr
+    from sc3.synth.server import Server, ServerOptions
+    m.Routine = Routine
+    kind = spec['shard']['kind']
+    clocks = {'system': clk.SystemClock, 'app': clk.AppClock}
+    second = Server('vf17n', NetAddr('127.0.0.1', 57919), ServerOptions())
+    servers = [Server.default, second]
+    for s in servers:
+        s.latency = 0 if mode == 'nrt' else s.latency
+    why = c17_exec.define_seti_defs(None, c17_gen.SETI_DEFS)
+    if why:
+        acc.mark_inconclusive('seti definitions: ' + why)
+        return
+    cap = c17_exec.Capture(mode, main)
+    ledgers = [c17_exec.Ledger(), c17_exec.Ledger()]
+    plain = [s.addr for s in servers]
+    timeouts = cases = 0
+    for i in iter_cases(spec):
+        rng = case_rng(spec['seed'], 'C17', kind, i)
+        case, info = c17_gen.gen_nested_case(rng, mode)
+        if mode == 'nrt':
+            main.reset()
+        with main._main_lock:
+            for s, pa, led in zip(servers, plain, ledgers):
+                if s.addr is not pa:
+                    s._addr = pa
+                    acc.count('server_addr_repaired_between_cases')
+                s.options.initial_node_id = 1000
+                s._set_client_id(0)
+                led.attach(s)
+            cap.reset()
+        nsrv = case['servers']
+        nc = c17_exec.NestedCase(m, servers[:nsrv], mode, cap, ledgers[:nsrv], acc.count)
+        cases += 1
+        try:
+            if not nc.run(case, clocks, wait=10.0):
+                timeouts += 1
+                acc.count('nested_cases_timed_out')
+                continue
+            packets = cap.packets()
+            acc.count('packets_decoded', len(packets))
+            c17_exec.NestedJudge(nc, packets, mode, acc.count).run()
+        except c17_exec.Violation as v:
+            w = dict(v.witness)
+            w.update({'case': i, 'kind': kind, 'nested': case})
+            acc.violation(v.key, w)
+        except c17_exec.ScoreShape as e:
+            acc.violation('C17/wire/score-entries-do-not-match-sends',
+                          {'case': i, 'why': str(e), 'nested': case})
+        except osc.OscError as e:
+            acc.violation('C17/wire/packet-is-not-valid-osc',
+                          {'case': i, 'why': str(e), 'nested': case})
+        acc.case(h64(repr(case)), nontrivial=info['max_depth'] >= 2 and nc.idx >= 2)
+        acc.count('histories')
+        if mode == 'rt':
+            acc.count('rt_histories')
+        acc.count(f"nested_cases:{case['where']}")
+        acc.count(f"nested_cases_depth_{info['max_depth']}")
+        if nsrv == 2:
+            acc.count('nested_cases_two_servers')
+        if info['caught_inside_an_outer_block']:
+            acc.count('nested_cases_with_exception_caught_inside_an_outer_block')
+            if info['root_outcome'] == 'ok':
+                acc.count('nested_cases_inner_block_raised_outermost_exited_normally')
+        if info['syncs_in_inner_blocks']:
+            acc.count('nested_cases_with_sync_in_inner_block')
+        if acc.want_sample() and info['max_depth'] >= 2 and 3 <= nc.idx <= 8 \
+                and info['failed_blocks']:
+            acc.sample({'case': i, 'kind': kind, 'nested': case})
+    if cases and timeouts > max(3, cases // 20):
+        acc.mark_inconclusive(f'{timeouts}/{cases} nested routines never finished')
+
+
+def run_entry_shard(spec, acc, m, main):
+    """Public entry points of the anchored files that no history shard enters
+    (vf/c17_entry.py), against a stand-in server the client is registered with."""
+    import tempfile
+    from vf import osc, c17_entry, c17_exec
+    from sc3.base.netaddr import NetAddr
+    from sc3.synth.server import Server, ServerOptions
+    tmp = os.path.join(os.environ.get('HOME') or tempfile.gettempdir(), 'vf17-tmp')
+    os.makedirs(tmp, exist_ok=True)
+    tempfile.tempdir = tmp           # Platform.tmp_dir = the worker's scratch HOME
+    server = Server('vf17e', NetAddr('127.0.0.1', 57921), ServerOptions())
+    remote = Server('vf17far', NetAddr('10.11.12.13', 57110), ServerOptions())
+    wire = c17_entry.Wire(main)
+    ledger = c17_exec.Ledger()
+    if not c17_entry.register(server, wire):
+        acc.mark_inconclusive('could not register with the stand-in server '
+                              f'(status requests seen: {wire.status_seen})')
+        return
+    acc.count('alive_routine_started')
+    ctx = c17_entry.Ctx(m, server, remote, wire, ledger, acc.count, tmp)
+    timeouts = cases = 0
+
+    def guarded(f, witness):
+        nonlocal timeouts
+        try:
+            r = f()
+            if r == 'timeout':
+                timeouts += 1
+                acc.count('entry_cases_timed_out')
+        except c17_exec.Violation as v:
+            w = dict(v.witness)
+            w.update(witness)
+            acc.violation(v.key, w)
+        except osc.OscError as e:
+            acc.violation('C17/wire/packet-is-not-valid-osc', dict(witness, why=str(e)))
+
+    if spec.get('only_case') is None:
+        with main._main_lock:
+            ledger.attach(server)
+        for _ in range(2 if spec['tier'] == 'quick' else 6):
+            cases += 1
+            guarded(lambda: c17_entry.lifecycle(ctx, acc.count), {'kind': 'rtentry'})
+            if not server.status.server_running:
+                if not c17_entry.register(server, wire):
+                    acc.mark_inconclusive('registration lost after a life cycle round')
+                    return
+    for i in iter_cases(spec):
+        rng = case_rng(spec['seed'], 'C17', 'rtentry', i)
+        case = c17_entry.gen_case(rng)
+        if not server.status.server_running:
+            acc.mark_inconclusive('the stand-in registration was lost')
+            return
+        with main._main_lock:
+            server.options.initial_node_id = 1000
+            server._set_client_id(0)
+            ledger.attach(server)
+            wire.reset()
+        cases += 1
+        guarded(lambda: c17_entry.run_case(ctx, case), {'case': i, 'kind': 'rtentry'})
+        acc.case(h64(repr(case)), nontrivial=c17_entry.case_nontrivial(case))
+        acc.count('histories')
+        acc.count('rt_histories')
+        if acc.want_sample() and case['kind'] in ('rootnode', 'node_watch', 'query_tree'):
+            acc.sample({'case': i, 'kind': 'rtentry', 'entry': case})
+    for f in os.listdir(tmp):
+        try:
+            os.unlink(os.path.join(tmp, f))
+        except OSError:
+            pass
+    if cases and timeouts > max(3, cases // 20):
+        acc.mark_inconclusive(f'{timeouts}/{cases} entry point cases timed out')
